@@ -27,3 +27,19 @@ func VerifParseReturnType(jsonRet []byte) (base.T, error) {
 	}
 	return parseReturnType(ret), nil
 }
+
+// VerifDefineInstanceMethod declares one instance method of a Builtin-frame class from the JSON of its arguments and
+// return type, through the same functions the loader uses for a .ti-config entry.
+func VerifDefineInstanceMethod(class, name string, jsonArgs, jsonRet []byte) error {
+	var args []MethodArgument
+	if err := json.Unmarshal(jsonArgs, &args); err != nil {
+		return err
+	}
+	var ret MethodReturn
+	if err := json.Unmarshal(jsonRet, &ret); err != nil {
+		return err
+	}
+	d := NewDefineBuiltinMethod("Builtin", class)
+	d.defineBuiltinInstanceMethod("Builtin", name, parseArguments(args), parseReturnType(ret))
+	return nil
+}
